@@ -497,4 +497,172 @@ theorem dsFromDzOffset_eq (ds0 : ℝ) (ds1 : List ℝ) (l0 : ℝ) (l1 : List ℝ
       ring
 
 
+
+/-- Cauchy–Schwarz for the list dot product -/
+theorem dotL_cauchy_schwarz (x y : List ℝ) (h : x.length = y.length) :
+    dotL x y ^ 2 ≤ dotL x x * dotL y y := by
+  have hq : ∀ α : ℝ, 0 ≤ dotL x x + 2 * α * dotL x y + α ^ 2 * dotL y y := by
+    intro α; rw [← dotL_axpy_self x y α h]; exact dotL_self_nonneg _
+  have hyy := dotL_self_nonneg y
+  rcases hyy.lt_or_eq with hpos | hzero
+  · have := hq (-(dotL x y) / dotL y y)
+    have e : dotL x x + 2 * (-(dotL x y) / dotL y y) * dotL x y + (-(dotL x y) / dotL y y) ^ 2 * dotL y y
+        = dotL x x - dotL x y ^ 2 / dotL y y := by
+      field_simp; ring
+    rw [e] at this
+    have h2 : dotL x y ^ 2 / dotL y y ≤ dotL x x := by linarith
+    rwa [div_le_iff₀ hpos] at h2
+  · rw [← hzero, mul_zero]
+    by_contra hne
+    rw [not_le] at hne
+    have hxy : dotL x y ≠ 0 := by
+      intro h0; rw [h0] at hne; simp at hne
+    have := hq (-(dotL x x + 1) / (2 * dotL x y))
+    rw [← hzero] at this
+    have e : dotL x x + 2 * (-(dotL x x + 1) / (2 * dotL x y)) * dotL x y
+        + (-(dotL x x + 1) / (2 * dotL x y)) ^ 2 * 0 = -1 := by
+      field_simp; ring
+    rw [e] at this
+    linarith
+
+/-- for interior `s`, `z`: `s₀z₀ + ⟨s₁,z₁⟩ > 0` -/
+theorem interior_pair_pos (s0 : ℝ) (s1 : List ℝ) (z0 : ℝ) (z1 : List ℝ) (hs : Interior s0 s1)
+    (hz : Interior z0 z1) (hlen : s1.length = z1.length) : 0 < s0 * z0 + dotL s1 z1 := by
+  have hcs := dotL_cauchy_schwarz s1 z1 hlen
+  have h1 : dotL s1 z1 ^ 2 < (s0 * z0) ^ 2 := by
+    have hns := dotL_self_nonneg s1
+    have hnz := dotL_self_nonneg z1
+    have : dotL s1 s1 * dotL z1 z1 < s0 ^ 2 * z0 ^ 2 := by
+      have hz2 : 0 < z0 ^ 2 := by have := hz.1; positivity
+      calc dotL s1 s1 * dotL z1 z1 ≤ dotL s1 s1 * z0 ^ 2 := by
+            exact mul_le_mul_of_nonneg_left hz.2.le hns
+        _ < s0 ^ 2 * z0 ^ 2 := by exact mul_lt_mul_of_pos_right hs.2 hz2
+    calc dotL s1 z1 ^ 2 ≤ _ := hcs
+      _ < s0 ^ 2 * z0 ^ 2 := this
+      _ = (s0 * z0) ^ 2 := by ring
+  have hpos : 0 < s0 * z0 := mul_pos hs.1 hz.1
+  have := abs_lt_of_sq_lt_sq h1 hpos.le
+  have := (abs_lt.mp this).1
+  linarith
+
+/-- the residual of the un-normalised `w` -/
+theorem wb_residual (s0 : ℝ) (s1 : List ℝ) (z0 : ℝ) (z1 : List ℝ) (ss zs : ℝ)
+    (hlen : s1.length = z1.length) (hss : 0 < ss) (hzs : 0 < zs)
+    (hss2 : ss ^ 2 = s0 ^ 2 - dotL s1 s1) (hzs2 : zs ^ 2 = z0 ^ 2 - dotL z1 z1) :
+    socResidual (s0 * (1 / ss) + z0 / zs)
+      (List.zipWith (fun wi zi => -(1 / zs) * zi + 1 * wi) (s1.map (fun si => si * (1 / ss))) z1) =
+      2 + 2 * (s0 * z0 + dotL s1 z1) / (ss * zs) := by
+  rw [wb1_eq s1 z1 ss zs hlen, socResidual_eq,
+    dotL_lin_left s1 z1 _ _ _ hlen, dotL_lin s1 z1 s1 _ _ hlen, dotL_lin s1 z1 z1 _ _ hlen,
+    dotL_comm z1 s1]
+  have e1 : dotL s1 s1 = s0 ^ 2 - ss ^ 2 := by linarith
+  have e2 : dotL z1 z1 = z0 ^ 2 - zs ^ 2 := by linarith
+  rw [e1, e2]
+  field_simp
+  ring
+
+theorem sqrtSocResidual_of_pos (x0 : ℝ) (x1 : List ℝ) (h : 0 < socResidual x0 x1) :
+    0 < sqrtSocResidual x0 x1 := by
+  unfold sqrtSocResidual
+  simp only [h, ↓reduceIte, real_sqrt_eq]
+  exact Real.sqrt_pos.mpr h
+
+/-- [R] `update_scaling` succeeds on interior `(s,z)` -/
+theorem updateScalingCore_succeeds (K : Cone ℝ) (s0 : ℝ) (s1 : List ℝ) (z0 : ℝ) (z1 : List ℝ)
+    (hs : Interior s0 s1) (hz : Interior z0 z1) (hlen : s1.length = z1.length) :
+    (updateScalingCore K s0 s1 z0 z1).1 = true := by
+  obtain ⟨hss, hss2⟩ := sqrtSocResidual_interior s0 s1 hs
+  obtain ⟨hzs, hzs2⟩ := sqrtSocResidual_interior z0 z1 hz
+  have hzz : isZero (sqrtSocResidual z0 z1) = false := by
+    rw [← Bool.not_eq_true, isZero_real]; exact hzs.ne'
+  have hsz : isZero (sqrtSocResidual s0 s1) = false := by
+    rw [← Bool.not_eq_true, isZero_real]; exact hss.ne'
+  have hres := wb_residual s0 s1 z0 z1 _ _ hlen hss hzs hss2 hzs2
+  have hpos : 0 < 2 + 2 * (s0 * z0 + dotL s1 z1) / (sqrtSocResidual s0 s1 * sqrtSocResidual z0 z1) := by
+    have := interior_pair_pos s0 s1 z0 z1 hs hz hlen
+    positivity
+  have hW : ∃ r, scalingW s0 s1 z0 z1 (sqrtSocResidual s0 s1) (sqrtSocResidual z0 z1) = some r := by
+    unfold scalingW
+    simp only
+    have hw : isZero (sqrtSocResidual (s0 * (1 / sqrtSocResidual s0 s1) + z0 / sqrtSocResidual z0 z1)
+        (List.zipWith (fun wi zi => -(1 / sqrtSocResidual z0 z1) * zi + 1 * wi)
+          (s1.map (fun si => si * (1 / sqrtSocResidual s0 s1))) z1)) = false := by
+      rw [← Bool.not_eq_true, isZero_real]
+      exact (sqrtSocResidual_of_pos _ _ (by rw [hres]; exact hpos)).ne'
+    rw [hw]
+    exact ⟨_, rfl⟩
+  obtain ⟨⟨w0, w1, ws⟩, hW⟩ := hW
+  unfold updateScalingCore
+  simp only [hzz, hsz, Bool.or_self, Bool.false_eq_true, ↓reduceIte, hW]
+
+
+/-- `W·W = η²(2ww′ − J)`: two applications of `mul_W` are `mul_Hs` (normalised `w`) -/
+theorem mulW_mulW_eq_mulHs (x0 : ℝ) (x1 : List ℝ) (w0 : ℝ) (w1 : List ℝ) (eta : ℝ) (y0 y0' : ℝ)
+    (y1 y1' : List ℝ) (hw : w0 ^ 2 - dotL w1 w1 = 1) (hw0 : 0 < w0)
+    (hx : x1.length = w1.length) (hy : y1.length = w1.length) (hy' : y1'.length = w1.length) :
+    let u := mulWCore y0 y1 x0 x1 1 0 w0 w1 eta
+    mulWCore y0' y1' u.1 u.2 1 0 w0 w1 eta = mulHsCore x0 x1 w0 w1 eta := by
+  intro u
+  have hu : u = _ := mulWCore_one_zero y0 y1 x0 x1 w0 w1 eta hy hx
+  have hul : u.2.length = w1.length := by rw [hu]; simp [hx]
+  rw [mulWCore_one_zero y0' y1' u.1 u.2 w0 w1 eta hy' hul, mulHsCore_eq x0 x1 w0 w1 eta hx]
+  have h1 : (1 + w0) ≠ 0 := by linarith
+  have hd : dotL w1 u.2 = eta * (x0 + dotL w1 x1 / (1 + w0)) * dotL w1 w1 + eta * dotL w1 x1 := by
+    rw [hu]; exact dotL_lin w1 x1 w1 _ _ hx.symm
+  have hww : dotL w1 w1 = (w0 - 1) * (w0 + 1) := by linarith [hw]
+  have hu1 : u.1 = eta * (w0 * x0 + dotL w1 x1) := by rw [hu]
+  refine Prod.ext ?_ ?_
+  · simp only
+    rw [hd, hu1, hww]; field_simp; ring
+  · simp only
+    apply List.ext_getElem
+    · simp [hul, hx]
+    · intro i h2 h3
+      have hiw : i < w1.length := by simpa [hul] using h2
+      have hui : u.2[i]'(by rw [hul]; exact hiw) =
+          eta * (x0 + dotL w1 x1 / (1 + w0)) * w1[i] + eta * x1[i]'(by rw [hx]; exact hiw) := by
+        simp [hu]
+      simp only [List.getElem_zipWith, hui, hd, hu1, hww]
+      field_simp
+      ring
+
+/-- [R] `(WᵀW) z = s`: `mul_Hs z = s` for the state left by a successful `update_scaling`
+on interior `(s,z)` -/
+theorem updateScalingCore_WtW (K K' : Cone ℝ) (s0 : ℝ) (s1 : List ℝ) (z0 : ℝ) (z1 : List ℝ)
+    (hs : Interior s0 s1) (hz : Interior z0 z1) (hlen : s1.length = z1.length)
+    (h : updateScalingCore K s0 s1 z0 z1 = (true, K')) :
+    ∃ w0 w1, K'.w = join w0 w1 ∧ mulHsCore z0 z1 w0 w1 K'.eta = (s0, s1) := by
+  obtain ⟨hss, hss2⟩ := sqrtSocResidual_interior s0 s1 hs
+  obtain ⟨hzs, hzs2⟩ := sqrtSocResidual_interior z0 z1 hz
+  have h' := h
+  unfold updateScalingCore at h
+  simp only at h
+  split at h
+  · simp at h
+  · split at h
+    · simp at h
+    · rename_i w0 w1 ws hW
+      simp only [Prod.mk.injEq, true_and] at h
+      obtain ⟨hnorm, hw0⟩ := scalingW_normalised _ _ _ _ _ _ _ _ _ hW
+      obtain ⟨_, _, _, hw1⟩ :=
+        scalingW_closed s0 s1 z0 z1 _ _ w0 ws w1 hlen hss hzs hs.1 hz.1 hss2 hzs2 hW
+      have hw1len : w1.length = z1.length := by rw [hw1]; simp [hlen]
+      have heta : K'.eta = Real.sqrt (sqrtSocResidual s0 s1 / sqrtSocResidual z0 z1) := by
+        rw [← h]; rfl
+      have hKw : K'.w = join w0 w1 := by rw [← h]
+      have hepos : K'.eta ≠ 0 := by
+        rw [heta]; exact (Real.sqrt_pos.mpr (div_pos hss hzs)).ne'
+      have hWz := mulW_z_eq_lam s0 s1 z0 z1 _ _ w0 ws w1 z0 z1 hlen rfl hss hzs hs.1 hz.1 hss2 hzs2 hW
+      have hWs := mulWinv_s_eq_lam s0 s1 z0 z1 _ _ w0 ws w1 z0 z1 hlen rfl hss hzs hs.1 hz.1 hss2 hzs2 hW
+      rw [← heta] at hWz hWs
+      refine ⟨w0, w1, hKw, ?_⟩
+      have e1 := mulW_mulW_eq_mulHs z0 z1 w0 w1 K'.eta z0 z0 z1 z1 hnorm hw0 hw1len.symm hw1len.symm
+        hw1len.symm
+      have e2 := mulW_mulWinv s0 s1 w0 w1 K'.eta z0 z0 z1 z1 hnorm hw0 hepos (by rw [hlen, hw1len])
+        hw1len.symm hw1len.symm
+      simp only at e1 e2
+      rw [← e1, hWz, ← hWs]
+      exact e2
+
+
 end Clarabel.Soc
